@@ -4,6 +4,7 @@ import (
 	"encoding/json"
 	"fmt"
 	"math/big"
+	"strings"
 
 	"github.com/nspcc-dev/neo-go/pkg/encoding/bigint"
 )
@@ -86,7 +87,11 @@ func runC18(args []string) error {
 	fs.Parse(args)
 	co := newCaseOut(cf.out, "Harness.C18", "Z",
 		"integers from the boundary lattice (0, ±1, ±2^k, ±2^k±1 for k up to 264, random widths up to 34 bytes) through ToBytes; "+
-			"byte strings (minimal, sign-padded, random up to 40 bytes) through FromBytes; a case is non-trivial when the byte string is non-empty; distinct by Coq term")
+			"byte strings (minimal, sign-padded, random up to 40 bytes) through FromBytes; Base58/Base58Check/address strings (leading zeros, wrong characters, wrong payload lengths and prefixes); "+
+			"fixed-point decimals at the int64 edges, negative fractions and malformed texts; Uint160/256 forms; Merkle roots of lists of length 0..40 with repeated hashes; "+
+			"m-of-n multi-signature configurations (repeated keys, invalid signatures, malformed keys) on the real VM under GOMAXPROCS 1/2/4/8; ECDSA/WIF/NEP-2/key laws (direct); "+
+			"non-trivial: non-empty byte string / fractional or negative decimal / list of two or more hashes / two or more signatures; distinct by Coq term")
+	co.shard = 120
 	if cf.replay != "" {
 		cases, err := readReplay(cf.replay)
 		if err != nil {
@@ -94,13 +99,25 @@ func runC18(args []string) error {
 		}
 		for _, c := range cases {
 			var x struct {
-				Kind  string   `json:"kind"`
-				Input c18Input `json:"input"`
+				Kind  string          `json:"kind"`
+				Input json.RawMessage `json:"input"`
 			}
 			if err := json.Unmarshal(c, &x); err != nil {
 				return err
 			}
-			c18Run(co, x.Kind, x.Input)
+			if strings.HasPrefix(x.Kind, "bigint_") {
+				var in c18Input
+				if err := json.Unmarshal(x.Input, &in); err != nil {
+					return err
+				}
+				c18Run(co, x.Kind, in)
+			} else {
+				var in c18xInput
+				if err := json.Unmarshal(x.Input, &in); err != nil {
+					return err
+				}
+				c18xRun(co, x.Kind, in)
+			}
 		}
 		return co.finish()
 	}
@@ -138,5 +155,6 @@ func runC18(args []string) error {
 		}
 		c18Run(co, "bigint_dec", c18Input{Bytes: hx(b)})
 	}
+	c18xGenerate(co, r, cf)
 	return co.finish()
 }
